@@ -66,6 +66,17 @@ Theorem C10_roundtrip_ssa_checker_partial : forall N t path, roundtrip_ssa_b N t
 Proof. exact roundtrip_ssa_b_sound. Qed.
 Print Assumptions C10_roundtrip_ssa_checker_partial.
 
+(* one conversion step is inverted exactly, for ALL strictly increasing id lists and all
+   strictly descending in-range position lists (= sorted(con, reverse=True) of distinct valid
+   positions): the ids read by linear_to_ssa's pops are the original entries at those
+   positions, and ssa_to_linear's bisect_left maps them back to the positions *)
+Theorem C10_step_positions_recovered : forall ids ds,
+  strictly_increasing ids -> desc_from (length ids) ds ->
+  map (bisect_left ids)
+      (snd (fold_left (fun s c => (pop_nth c (fst s), snd s ++ [nth c (fst s) 0])) ds (ids, []))) = ds.
+Proof. exact step_positions_recovered. Qed.
+Print Assumptions C10_step_positions_recovered.
+
 (* linear_ssa_inverse: PARTIAL -- the exact-position lemma and the id-list invariant above are
    proved for all inputs; their assembly into "ssa_to_linear (linear_to_ssa p) = p up to the
    order inside a step, for every valid path" is certified per run by inverse_ok_b on
